@@ -910,24 +910,27 @@ def reproduces(root, hist, op, observer, answer, clause, rec):
     """Does `op` (with `answer`) still fail with `clause` after the (shorter) history `hist`?"""
     table, tier = root['table'], root['tier']
     if not _valid_history(table, hist):
-        return False
+        return None
     scratch = Rec()
     try:
         R = replay_history(table, hist)
     except RuntimeError:
-        return False
+        return None
     try:
         if observer:
             if op not in observers(R.ref, tier):
-                return False
+                return None
             probs = run_observer(R, op, tier, scratch, dict(root=table, hist='', depth=len(hist)), only_answer=answer)
         else:
             if op not in mutators(R.ref, 'thorough'):
-                return False
+                return None
             probs, _ = step_and_compare(R, op, scratch)
     finally:
         rec.retire = rec.retire or scratch.retire
-    return any(p[0] == clause for p in probs)
+    for p in probs:
+        if p[0] == clause:
+            return p
+    return None
 
 
 def shrink_history(root, history, op, observer, answer, clause, rec):
@@ -935,13 +938,15 @@ def shrink_history(root, history, op, observer, answer, clause, rec):
     (used for the deep chains only; BFS witnesses are already shortest)."""
     h = [list(e) for e in history]
     i = 0
+    last = None
     while i < len(h):
         cand = h[:i] + h[i + 1:]
-        if reproduces(root, cand, op, observer, answer, clause, rec):
-            h = cand
+        p = reproduces(root, cand, op, observer, answer, clause, rec)
+        if p is not None:
+            h, last = cand, p
         else:
             i += 1
-    return h
+    return h, last
 
 
 def report(rec, problems, op, root, history, flags, observer, shrink=False):
@@ -952,9 +957,11 @@ def report(rec, problems, op, root, history, flags, observer, shrink=False):
         if shrink and history:
             ck = (clause, op_label(op), flags)
             if ck not in cache:
-                h = shrink_history(root, history, op, observer, answer, clause, rec)
+                h, p2 = shrink_history(root, history, op, observer, answer, clause, rec)
                 cache[ck] = (h, flags_of(replay_history(root['table'], h, check=False).snap))
                 history_, flags_ = cache[ck]
+                if p2 is not None:
+                    detail = p2[1]
             else:
                 history_, flags_ = history, cache[ck][1]
         else:
